@@ -24,6 +24,14 @@ func foldString(t *Term) (string, bool) {
 		s, err := strconv.Unquote(t.Name)
 		return s, err == nil
 	}
+	if t.Op == "binop" && t.Name == "+" && len(t.Args) == 2 {
+		a, ok1 := foldString(t.Args[0])
+		b, ok2 := foldString(t.Args[1])
+		if ok1 && ok2 {
+			return a + b, true
+		}
+		return "", false
+	}
 	if t.IsCall("fmt.Sprintf") && len(t.Args) == 2 && t.Args[1].Op == "slicelit" {
 		f, ok := foldString(t.Args[0])
 		if !ok {
@@ -502,6 +510,10 @@ func classifyMsgAtom(p *Prog, t *Term) (atomClass, bool, bool) {
 			if f, ok := fieldOfSubject(t.Args[0].Args[0].Args[0]); ok {
 				return atomClass{f, "addr-nonempty", LangSpec{}}, false, true
 			}
+		case t.Name == "strings.ContainsRune" && len(t.Args) == 2 && t.Args[1].Op == "const" && t.Args[1].Name == "0":
+			if f, ok := fieldOfSubject(t.Args[0]); ok {
+				return atomClass{f, "nonul", LangSpec{}}, false, true
+			}
 		case (t.Name == "strings.Contains" || t.Name == "strings.ContainsAny") && len(t.Args) == 2 && t.Args[1].Op == "const" && t.Args[1].Name == `"\x00"`:
 			if f, ok := fieldOfSubject(t.Args[0]); ok {
 				return atomClass{f, "nonul", LangSpec{}}, false, true
@@ -730,7 +742,22 @@ func checkC16(p *Prog, r *Report) {
 				}
 			}
 			if e.NonNil {
-				need("nonnil", "is present")
+				// for a byte slice `len(x) == 0` already covers nil: a separate nil test is redundant, not required
+				hasNonEmpty := false
+				for _, c := range atoms {
+					if c.cls.Kind == "nonempty" {
+						hasNonEmpty = true
+					}
+				}
+				hasNonNil := false
+				for _, c := range atoms {
+					if c.cls.Kind == "nonnil" {
+						hasNonNil = true
+					}
+				}
+				if hasNonNil || !(e.NonEmpty && hasNonEmpty) {
+					need("nonnil", "is present")
+				}
 			}
 			if e.Valid {
 				need("valid", "is a well-formed document")
@@ -925,7 +952,13 @@ func checkDidDocumentValid(p *Prog, r *Report, kp func(string, string) string) {
 					continue
 				}
 				if !neg && t.IsCall("strings.HasPrefix") && t.Args[0].Op == "param" && t.Args[1].IsCall("fmt.Sprintf") {
-					if f, ok := foldString(t.Args[1].Args[0]); ok && f == "%v#" {
+					if f, ok := foldString(t.Args[1].Args[0]); ok && (f == "%v#" || f == "%s#") {
+						okPrefix = true
+					}
+				}
+				// the same prefix written as a concatenation: did + "#"
+				if !neg && t.IsCall("strings.HasPrefix") && t.Args[0].Op == "param" && t.Args[1].Op == "binop" && t.Args[1].Name == "+" && len(t.Args[1].Args) == 2 {
+					if t.Args[1].Args[0].Op == "param" && t.Args[1].Args[1].Op == "const" && t.Args[1].Args[1].Name == `"#"` {
 						okPrefix = true
 					}
 				}
@@ -957,6 +990,21 @@ func checkDidDocumentValid(p *Prog, r *Report, kp func(string, string) string) {
 					if t.Op == "call" && strings.HasSuffix(t.Name, "ValidateVerificationMethodID") && len(t.Args) == 2 && t.Args[0].Op == "field" && t.Args[0].Name == "Id" {
 						// … against the DID handed in by the document (the parameter itself), not a DID computed from the method
 						okID = t.Args[1].Op == "param"
+					}
+					// the id validator expanded in place (it became a pure function): its prefix test against <did parameter>#
+					if t.IsCall("strings.HasPrefix") && len(t.Args) == 2 && t.Args[0].Op == "field" && t.Args[0].Name == "Id" {
+						hasPrm, hasHash := false, false
+						t.Args[1].Walk(func(x *Term) {
+							if x.Op == "param" {
+								hasPrm = true
+							}
+							if x.Op == "const" && (x.Name == `"#"` || x.Name == `"%v#"` || x.Name == `"%s#"`) {
+								hasHash = true
+							}
+						})
+						if hasPrm && hasHash {
+							okID = true
+						}
 					}
 					if t.Op == "call" && strings.HasSuffix(t.Name, "ValidateKeyType") && t.Args[0].Op == "field" && t.Args[0].Name == "Type" {
 						okType = true
